@@ -24,10 +24,11 @@ KrChecks(e) ==
   \cup Flag(MustReject(toks) => ~e.accepted, "C17_accepted_incomplete_or_duplicate_keyring")
   \cup Flag(MustAccept(toks) => e.accepted, "C17_rejected_tool_written_keyring")
   \cup Flag((e.accepted /\ Unambiguous(toks)) =>
-              (Len(e.entries) = NSec(toks) /\ \A s \in 1..NSec(toks) :
-                   /\ e.entries[s].name = Entries(toks)[s].name
-                   /\ e.entries[s].pub = Entries(toks)[s].pub
-                   /\ e.entries[s].priv = Entries(toks)[s].priv),
+              \* entries as the tool's own look-ups return them (get_key over the names of the text and of the model):
+              \* the same entries as the sections written; their order in storage is not observable and not required
+              (Len(e.entries) = NSec(toks)
+               /\ {[name |-> e.entries[i].name, pub |-> e.entries[i].pub, priv |-> e.entries[i].priv] : i \in 1..Len(e.entries)}
+                  = {[name |-> Entries(toks)[s].name, pub |-> Entries(toks)[s].pub, priv |-> Entries(toks)[s].priv] : s \in 1..NSec(toks)}),
           "C17_entries_differ_from_sections_written")
   \cup Flag(e.accepted => e.lookups_ok, "C17_lookup_not_functional")
 
